@@ -3,6 +3,8 @@ package diags
 import (
 	"fmt"
 	"strconv"
+	"strings"
+	"unicode/utf8"
 
 	"gopkg.in/yaml.v3"
 )
@@ -93,7 +95,7 @@ func NewPositionRange(lines []string, val *yaml.Node, minColumn int) (offsets Po
 		}
 	}
 
-	var needIndex, lineSpaces, valSpaces int
+	var needIndex, lineSpaces, valSpaces, skip int
 	need := val.Value[needIndex]
 	lineIndex := val.Line
 	columnIndex := val.Column
@@ -131,7 +133,28 @@ func NewPositionRange(lines []string, val *yaml.Node, minColumn int) (offsets Po
 			columnIndex += lineSpaces - valSpaces
 		}
 
+		skip = 0
 		for gotIndex, got := range []byte(lines[lineIndex-1][columnIndex-1:]) {
+			if skip > 0 {
+				skip--
+				continue
+			}
+			if got == '\\' && val.Style&yaml.DoubleQuotedStyle != 0 {
+				// An escape sequence stands for the characters it decodes to, they end where it ends.
+				decoded, size := unescape(lines[lineIndex-1][columnIndex-1+gotIndex:])
+				skip = size - 1
+				if decoded != "" && strings.HasPrefix(val.Value[needIndex:], decoded) {
+					for i := range len(decoded) {
+						offsets = appendPosition(offsets, lineIndex, columnIndex+gotIndex+max(0, size-len(decoded)+i))
+					}
+					needIndex += len(decoded)
+					if needIndex >= len(val.Value) {
+						goto END
+					}
+					need = val.Value[needIndex]
+				}
+				continue
+			}
 			if need == got {
 				offsets = appendPosition(offsets, lineIndex, columnIndex+gotIndex)
 				needIndex++
@@ -163,6 +186,61 @@ END:
 		}
 	}
 	return offsets
+}
+
+// unescape decodes the escape sequence of a double quoted yaml scalar that s starts with,
+// it returns the decoded text and the number of bytes the sequence takes in s.
+func unescape(s string) (decoded string, size int) {
+	if len(s) < 2 {
+		// Escaped line break.
+		return "", len(s)
+	}
+	var digits int
+	switch s[1] {
+	case '0':
+		return "\x00", 2
+	case 'a':
+		return "\a", 2
+	case 'b':
+		return "\b", 2
+	case 't', '\t':
+		return "\t", 2
+	case 'n':
+		return "\n", 2
+	case 'v':
+		return "\v", 2
+	case 'f':
+		return "\f", 2
+	case 'r':
+		return "\r", 2
+	case 'e':
+		return "\x1b", 2
+	case 'N':
+		return "\u0085", 2
+	case '_':
+		return "\u00a0", 2
+	case 'L':
+		return "\u2028", 2
+	case 'P':
+		return "\u2029", 2
+	case 'x':
+		digits = 2
+	case 'u':
+		digits = 4
+	case 'U':
+		digits = 8
+	default:
+		// The escaped character itself: space, double quote, slash, backslash.
+		return s[1:2], 2
+	}
+	if len(s) < 2+digits {
+		return "", len(s)
+	}
+	code, err := strconv.ParseUint(s[2:2+digits], 16, 32)
+	if err != nil {
+		return "", 2
+	}
+	return string(utf8.AppendRune(nil, rune(code))), 2 + digits
 }
 
 // byteColumn returns the 1-indexed byte column of the 1-indexed character column.
